@@ -105,6 +105,17 @@ def node_weight(u):
 
 def build_graph(sc, lab, norder, eorder, weighted):
     import networkx as nx
+    if weighted == "directed":
+        # a directed contact network in which every contact is reciprocated with a DIFFERENT weight: the result may
+        # depend on the arcs and their weights, not on the order in which they (or the nodes) were inserted
+        G = nx.DiGraph()
+        for u in norder:
+            G.add_node(lab[u], g=node_weight(u))
+        for k, (u, v) in enumerate(eorder):
+            a, b = (u, v) if k % 2 == 0 else (v, u)          # the insertion order of the two arcs varies too
+            G.add_edge(lab[a], lab[b], w=edge_weight(a, b) + (0.25 if a < b else 0.0))
+            G.add_edge(lab[b], lab[a], w=edge_weight(a, b) + (0.25 if b < a else 0.0))
+        return G
     G = nx.Graph()
     for u in norder:
         if weighted:
@@ -453,7 +464,7 @@ def run_ode_part(chk, tier, seed):
             if not quick and e["full"] and e["call"] not in NODE_LEVEL:
                 fulls = (True, False)
             for (variant, nlkind) in variants(e, sc):
-                for weighted in ((False, True) if e["call"] in NODE_LEVEL else (False,)):
+                for weighted in ((False, True, "directed") if e["call"] in NODE_LEVEL else (False,)):
                     if weighted and (quick and sc.ic == "explicit+recovered"):
                         continue
                     for full in fulls:
